@@ -32,7 +32,7 @@ Print Assumptions stringtokenvalue_total.
 (* _tokensupto2 splits the generator: run ++ rest = tokens, the start token heads the run *)
 Theorem upto_partition : forall md c ts run rest,
   upto_loop md c ts = (run, rest) -> run ++ rest = ts.
-Proof. exact upto_loop_partition. Qed.
+Proof. exact c01_upto_loop_partition. Qed.
 Print Assumptions upto_partition.
 
 (* the @charset rule handler returns on every token run whose STRING tokens are quoted *)
@@ -104,3 +104,40 @@ Theorem parse_never_raises_pinned_refuted :
                        true true (s "@charset ") = Raised IndexError.
 Proof. exact parse_never_raises_pinned_refuted_lemma. Qed.
 Print Assumptions parse_never_raises_pinned_refuted.
+
+(* ---- extension round ------------------------------------------------------------------- *)
+From CssV Require Import Skeleton ParseSkel ParseSkelFacts.
+
+(* the time clause stays PARTIAL (CPython's sre is outside the model); what is provable about the
+   model: the tokenizer loop runs at most once per character -- the token count is linear *)
+Theorem tokenize_token_count : forall dc fs text toks,
+  tokenize dc fs text = Some toks -> length toks <= length text + 2.
+Proof. exact tokenize_token_count_lemma. Qed.
+Print Assumptions tokenize_token_count.
+
+(* "#statements <= #tokens" for every dispatch loop of the skeleton (sheet, @media, declarations) *)
+Theorem skeleton_statement_count : forall up km cls ts n, length (disp_gen up km cls ts n) <= length ts.
+Proof. exact disp_count. Qed.
+Print Assumptions skeleton_statement_count.
+
+(* skeleton_total: top-level dispatch, rule-set splits, declaration loops, @media splits and nested
+   inner dispatch return for EVERY token list (STRING tokens quoted); every _tokensupto2 pull is
+   total by upto_partition; fuel = number of tokens is never exhausted.  Hypothesis: only the
+   leaf parsers (selector list, property incl. value grammars + profiles validation, media query
+   list, @import/@namespace/@page/@font-face/@variables bodies) return on finite token runs. *)
+Theorem skeleton_total :
+  forall (St : Type) leaf flag add_comment on_unknown charset_commit (st0 : St),
+    leaves_total St leaf ->
+    forall ts, Forall tokinv ts ->
+      exists st', eval_sheet St leaf flag add_comment on_unknown charset_commit st0 ts = Returned st'.
+Proof. exact skeleton_total_lemma. Qed.
+Print Assumptions skeleton_total.
+
+(* P' (replaces handlers_total by the much smaller leaves_total): for every text, both entry
+   points, comments kept or dropped, the parse returns *)
+Theorem parse_never_raises_skeleton :
+  forall (St : Type) leaf flag add_comment on_unknown charset_commit (st0 : St),
+    leaves_total St leaf ->
+    parse_never_raises_skel_statement St leaf flag add_comment on_unknown charset_commit st0.
+Proof. exact parse_never_raises_skeleton_lemma. Qed.
+Print Assumptions parse_never_raises_skeleton.
